@@ -409,8 +409,9 @@ def token_docs(draw, mode=None, fv=None):
 _NAMEISH = frozenset("_0123456789ABCDEFGHIJKLMNOPQRSTUVWXYZabcdefghijklmnopqrstuvwxyz")
 
 _ign = st.sampled_from(["", "", "", " ", " ", "\n", "\t", ",", ", ", "\r\n", "\r", "  ", "\ufeff",
-                        "#c\n", "#   \u00e9 \"\"\" { \n", "#\r", " #x\r\n ", ",,"])
-_sep = st.sampled_from([" ", " ", "\n", ",", "\t", "\r\n", "#c\n", ", ", "\ufeff"])
+                        "#c\n", "#   \u00e9 \"\"\" { \n", "#\r", " #x\r\n ", ",,",
+                        "#\tx y\n", "# a\tb: 1 c\n", "#\u2028d e\n", "#\u00a0\u0085 f\u2029g\n", "\t#\t\t}\n"])
+_sep = st.sampled_from([" ", " ", "\n", ",", "\t", "\r\n", "#c\n", ", ", "\ufeff", "#\tz\n"])
 
 
 def needs_sep(a, b):
